@@ -16,10 +16,18 @@
     (`interrupted_then_returns`) — so at most the evaluations of the pass in progress happen after `stop()`;
   * the results written at that exit satisfy the exit contract of `Props/C03_Ocp` (which quantifies over
     all stop schedules already).
+  * **oracle-event bound** (`ocp_ticks_after_stop`): with a flag that is never lowered and visible from
+    tick `t₀` on, a whole solve makes at most `max (initTicks + 1) (t₀ + pollGap)` oracle calls (ticks), where
+    `pollGap = max (max gnTicks 3) (2·fwdTicks + bwdTicks)` is the largest number of calls between two
+    consecutive polls of the flag (one Gauss-Newton block; one line-search pass = candidate roll-out,
+    gradient, ψ(û); L-BFGS reset + update + progress callback) and `initTicks = 4 + 2·fwdTicks + 2·bwdTicks +
+    fsimTicks` the calls before the first poll.  No fuel hypothesis, every carrier.
   Not modelled: data-race freedom of the flag (C++ memory model).
 -/
 import Alpaqa.Proofs.OcpLs
 import Alpaqa.Proofs.OcpLoop
+import Alpaqa.Proofs.OcpTicks
+import Alpaqa.Proofs.OcpExample
 
 namespace Alpaqa.Props.C19_Ocp
 open Alpaqa Alpaqa.Ocp Alpaqa.Gen
@@ -140,6 +148,30 @@ theorem init_interrupted_then_returns (O : Oracles α) (dir : Dir D α) (P : Pro
   refine ⟨?_, h.2, (initState_good O P d0 pr stop u0 gV gQ gS e0 s hi).2⟩
   unfold run; rw [hi]; exact h.1
 
+/-! ### Oracle-event bound after `stop()` -/
+
+/-- **At most `pollGap` further oracle calls after `stop()`, wherever it lands.**  If the flag, never
+    lowered (`StopMono`), is visible from tick `t₀` on, the solve ends at tick
+    `≤ max (initTicks + 1) (t₀ + pollGap)` — in the model's own tick units (one tick per problem call made by
+    `forward` / `forward_simulate` / `backward` / the Gauss-Newton block, per masked-L-BFGS call and per
+    progress callback):
+    * `pollGap = max (max gnTicks 3) (2·fwdTicks + bwdTicks)`: the calls between two consecutive polls of
+      the flag — less than one iteration's worth of evaluations;
+    * `initTicks + 1`: a request that is already visible at the first poll (initialisation, final
+      callback).
+    For all evaluator / direction oracles, budgets, criteria; no fuel hypothesis. -/
+theorem ocp_ticks_after_stop (O : Oracles α) (dir : Dir D α) (P : Prob α) (d0 : D) (pr : Params α)
+    (stop : Nat → Bool) (hm : StopMono stop) (t0 : Nat) (h0 : stop t0 = true) (oot : Bool)
+    (u0 y mu errz0 gV gQ : Vec α) (gS e0 : α) :
+    (run O dir P d0 pr stop oot u0 y mu errz0 gV gQ gS e0).ticks ≤
+      max (P.initTicks + 1) (t0 + P.pollGap) :=
+  run_ticks_after_stop O dir P d0 pr stop hm t0 h0 oot u0 y mu errz0 gV gQ gS e0
+
+/-- The per-call-site pieces of `pollGap`. -/
+theorem pollGap_pieces (P : Prob α) :
+    max P.gnTicks 2 ≤ P.pollGap ∧ 2 * P.fwdTicks + P.bwdTicks ≤ P.pollGap ∧ 3 ≤ P.pollGap := by
+  unfold Prob.pollGap Prob.lsGap; omega
+
 /-! ### Non-vacuity -/
 section examples
 local instance ratRealLike : RealLike ℚ := ⟨id, fun _ => false, fun _ => true⟩
@@ -150,5 +182,44 @@ example : statusChainOcp (1 : ℚ) 10 5 3 2 0 false true = .Interrupted := by
 example : statusChainOcp (1 : ℚ) 10 5 3 (1/2) 0 false true = .Converged := by
   simp [statusChainOcp, RealLike.isFinite]; norm_num
 end examples
+
+/-! ### Non-vacuity on concrete runs of `Ocp.run` (`Proofs/OcpExample`) -/
+section run_examples
+open Alpaqa.Ocp.Example
+
+theorem stopAt_mono (t0 : Option Nat) : StopMono (stopAt t0) := by
+  intro a b hab h
+  cases t0 with
+  | none => simp [stopAt] at h
+  | some t => simp only [stopAt, decide_eq_true_eq] at h ⊢; omega
+
+/-- the example OCP `PA`: `fwdTicks = 5`, `bwdTicks = 5`, `gnTicks = 11`, `fsimTicks = 2`:
+    `pollGap = 15`, `initTicks = 26` -/
+example : PA.pollGap = 15 ∧ PA.initTicks = 26 := by decide
+
+/-- `ocp_ticks_after_stop` instantiated: Gauss-Newton run `rA`, flag visible from tick `t₀` on -/
+example (t0 : Nat) : (rA .ProjGradNorm (some t0)).ticks ≤ max (PA.initTicks + 1) (t0 + PA.pollGap) :=
+  ocp_ticks_after_stop OA (dirOf 1 3) PA () (prAc .ProjGradNorm) (stopAt (some t0)) (stopAt_mono _) t0
+    (by simp [stopAt]) false [1, 1/2] [] [] [] [] [] 0 0
+
+/-- what actually happens: uninterrupted the run takes 47 ticks (`Converged` after one iteration); a
+    request at a tick `≤ 19` (initialisation) ends it at tick 20, one in `20 … 30` (direction / first
+    line-search pass) at tick 31, one in `31 … 45` at tick 46 — always `Interrupted`, `k = 0`, the outputs
+    written from the initial iterate -/
+example : (rA .ProjGradNorm none).ticks = 47 ∧
+    (List.range 47).map (fun t => (rA .ProjGradNorm (some t)).ticks) =
+      List.replicate 20 20 ++ List.replicate 11 31 ++ List.replicate 15 46 ++ [47] ∧
+    (List.range 46).all (fun t => (rA .ProjGradNorm (some t)).stats.status == .Interrupted &&
+      (rA .ProjGradNorm (some t)).stats.iterations == 0 && (rA .ProjGradNorm (some t)).wrote) = true := by
+  decide +kernel
+
+/-- `interrupted_linesearch_discarded` / `interrupted_then_returns` on the run: a request landing in the
+    first line search (tick 25) leaves one callback, `k = 0`, and the returned inputs are `û` of the
+    *initial* iterate -/
+example : (rA .ProjGradNorm (some 25)).callbacks.length = 1 ∧ (rA .ProjGradNorm (some 25)).u = [13/32, 1/40] ∧
+    (rA .ProjGradNorm (some 25)).fuelOut = false := by
+  decide +kernel
+
+end run_examples
 
 end Alpaqa.Props.C19_Ocp
